@@ -40,6 +40,7 @@
 #ifdef MPI
 #include "communication_mpi.h"
 #endif // MPI
+#define MIN(a, b) ((a) > (b) ? (b) : (a))    ///< Returns the minimum of a and b
 
 #ifdef GRAVITY_GRAPE
 #warning Fix this. 
@@ -190,9 +191,9 @@ int reb_particle_check_testparticles(struct reb_simulation* const r){
 
 int reb_get_rootbox_for_particle(const struct reb_simulation* const r, struct reb_particle pt){
 	if (r->root_size==-1) return 0;
-	int i = ((int)floor((pt.x + r->boxsize.x/2.)/r->root_size)+r->N_root_x)%r->N_root_x;
-	int j = ((int)floor((pt.y + r->boxsize.y/2.)/r->root_size)+r->N_root_y)%r->N_root_y;
-	int k = ((int)floor((pt.z + r->boxsize.z/2.)/r->root_size)+r->N_root_z)%r->N_root_z;
+	int i = (MIN((int)floor((pt.x + r->boxsize.x/2.)/r->root_size),r->N_root_x-1)+r->N_root_x)%r->N_root_x; // a particle on the upper face belongs to the last root box
+	int j = (MIN((int)floor((pt.y + r->boxsize.y/2.)/r->root_size),r->N_root_y-1)+r->N_root_y)%r->N_root_y; // a particle on the upper face belongs to the last root box
+	int k = (MIN((int)floor((pt.z + r->boxsize.z/2.)/r->root_size),r->N_root_z-1)+r->N_root_z)%r->N_root_z; // a particle on the upper face belongs to the last root box
 	int index = (k*r->N_root_y+j)*r->N_root_x+i;
 	return index;
 }
